@@ -280,6 +280,10 @@ Error: cannot find zone specified in --from-zone: `%s'", argi->from_zone_arg);
 		dt_set_base(base);
 	}
 
+	/* sort(1) and cut(1) shall treat lines as bytes whatever the
+	 * user's locale is, the sort key is all digits anyway */
+	setenv("LC_ALL", "C", 1);
+
 	/* prepare a mini-argi for the sort invocation */
 	if (argi->reverse_flag) {
 		sopt.revp = 1U;
